@@ -136,6 +136,107 @@ theorem history_irrelevant_param {σ : Type} (g : Gen σ) (m : ParamModel) (n : 
     simp only [simulateParam, this]
   · simp only [integrateS]; exact redraw_leaves_agree g m.spec cur st
 
+/-! ### the object across calls: what the `parameters` setter records (`Seed.setParams`)
+
+The theorems above take the record `_stochasticParam` as a fixed component of the model.  Across the calls of a session it is
+part of the object, written by the setter only.  The statements below say that it - and hence every seeded output - depends
+on the LAST assignments only: numbers for all parameters clear it (fix cc23e1d), a dict with distributions replaces it, a
+run leaves it alone. -/
+
+/-- numbers for all parameters (list / array / list of pairs): the values are the ones given, the record is cleared and
+nothing is drawn - whatever the object held before -/
+theorem setter_all_clears {σ : Type} (g : Gen σ) (vs : List Rat) (o : Obj) (st : σ) :
+    setParams g (.all vs) o st = (⟨vs, none⟩, st) := rfl
+
+/-- a dict with at least one distribution becomes the record, whatever was recorded before; the assignment consumes one
+variate per distribution-valued entry, in dict order, and changes values only at the dict's positions -/
+theorem setter_random_dict_records {σ : Type} (g : Gen σ) (d : PSpec) (hd : hasRandom d = true) (o : Obj) (st : σ) :
+    (setParams g (.dict d) o st).1.record = some d ∧
+    (setParams g (.dict d) o st).2 = (serve g (paramReqs d) st).2 ∧
+    AgreeOutside d o.cur (setParams g (.dict d) o st).1.cur := by
+  refine ⟨by simp [setParams, hd], by simp [setParams, hd, redraw], ?_⟩
+  simp only [setParams, hd, if_true]
+  exact redraw_leaves_agree g d o.cur st
+
+/-- a dict of plain numbers draws nothing, changes values only at its own positions, and can only shrink the record -/
+theorem setter_number_dict {σ : Type} (g : Gen σ) (d : PSpec) (hd : hasRandom d = false) (o : Obj) (st : σ) :
+    (setParams g (.dict d) o st).2 = st ∧
+    (setParams g (.dict d) o st).1.record = clearRecord o.record d ∧
+    (o.record = none → (setParams g (.dict d) o st).1.record = none) ∧
+    AgreeOutside d o.cur (setParams g (.dict d) o st).1.cur := by
+  refine ⟨by simp [setParams, hd], by simp [setParams, hd], fun h => by simp [setParams, hd, h, clearRecord], ?_⟩
+  simp only [setParams, hd, Bool.false_eq_true, if_false]
+  exact ⟨by simp [assign_length], fun j hj => by rw [assign_outside _ _ _ j hj]⟩
+
+/-- plain numbers for every parameter the record draws clear the record -/
+theorem setter_number_dict_covering (r d : PSpec)
+    (hcov : ∀ e ∈ r, e.2 = PEntry.random → e.1 ∈ d.map Prod.fst) : clearRecord (some r) d = none := by
+  have hleft : hasRandom (r.filter (fun e => !((d.map Prod.fst).contains e.1))) = false := by
+    simp only [hasRandom, List.any_eq_false, List.mem_filter]
+    rintro e ⟨he, hne⟩ hrand
+    have h2 : e.2 = PEntry.random := by
+      cases h : e.2 with
+      | fixed v => rw [h] at hrand; simp [PEntry.isRandom] at hrand
+      | random => rfl
+    have := hcov e he h2
+    simp [List.contains_iff_mem, this] at hne
+  simp only [clearRecord, hleft, Bool.false_eq_true, if_false]
+
+/-- a run leaves the record alone (the redraw hands the recorded dict itself to the setter) -/
+theorem run_keeps_record {σ : Type} (g : Gen σ) (m : JumpModel) (solve : List Rat → Sol) (o : Obj) (st : σ) :
+    (jumpObj g m o st).2.1.record = o.record ∧ (integrateObj g solve o st).2.1.record = o.record := by
+  refine ⟨rfl, ?_⟩
+  cases h : o.record <;> simp [integrateObj, h]
+
+/-- **history_irrelevant_cleared** (the cleared-record case, fix cc23e1d).  After numbers were assigned to all parameters the
+object is the same whatever it held before - distributions assigned and used earlier included -; a `_jump` then makes no
+parameter request, runs with exactly the numbers given and leaves them in place; `integrate` is the plain integration at
+those numbers without a draw. -/
+theorem history_irrelevant_cleared {σ : Type} (g : Gen σ) (m : JumpModel) (solve : List Rat → Sol) (vs : List Rat)
+    (o o' : Obj) (st : σ) :
+    setParams g (.all vs) o st = setParams g (.all vs) o' st ∧
+    jumpObj g m (setParams g (.all vs) o st).1 st = jumpObj g m (setParams g (.all vs) o' st).1 st ∧
+    (jumpObj g m (setParams g (.all vs) o st).1 st).1 = (jumpS g (m.cfg vs) m.exact m.fuel m.x0 m.t0 st).1 ∧
+    (jumpObj g m (setParams g (.all vs) o st).1 st).2.1 = ⟨vs, none⟩ ∧
+    integrateObj g solve (setParams g (.all vs) o st).1 st = (⟨solve vs, [], vs⟩, (⟨vs, none⟩, st)) := by
+  refine ⟨rfl, rfl, ?_, ?_, rfl⟩ <;> simp [setParams, jumpObj, jumpOnce]
+
+/-- **history_irrelevant_session.**  Two objects that hold the same record and the same values outside the positions it
+assigns - e.g. the same instance before and after any number of runs, or two instances configured alike after different
+pasts - give the same outputs from the same stream and are left in the same state. -/
+theorem history_irrelevant_session {σ : Type} (g : Gen σ) (m : JumpModel) (solve : List Rat → Sol) (sp : PSpec) (o o' : Obj) (st : σ)
+    (hr : o.record = some sp) (hr' : o'.record = some sp) (h : AgreeOutside sp o.cur o'.cur) :
+    jumpObj g m o st = jumpObj g m o' st ∧ integrateObj g solve o st = integrateObj g solve o' st := by
+  have hj := ((history_irrelevant g { m with spec := some sp } o.cur o'.cur st).2 sp rfl).2 h
+  refine ⟨?_, ?_⟩
+  · simp only [jumpObj, hr, hr', hj]
+  · have hi : integrateS g ⟨sp, solve⟩ (o.cur, st) = integrateS g ⟨sp, solve⟩ (o'.cur, st) := by
+      simp only [integrateS]; rw [redraw_agree g sp o.cur o'.cur st h]
+    simp only [integrateObj, hr, hr', hi]
+
+/-- the last assignments decide: "numbers for all parameters, then the dict" puts any two objects into the same state
+(what the harness's histories end with) -/
+theorem setter_last_assignments_decide {σ : Type} (g : Gen σ) (vs : List Rat) (d : PSpec) (o o' : Obj) (st : σ) :
+    setMany g [.all vs, .dict d] o st = setMany g [.all vs, .dict d] o' st := rfl
+
+/-- **stale_record_redraws_counterexample.**  The setter as it was before cc23e1d (numbers do not clear the record): after
+`parameters = [7]` on an object that had a distribution recorded, `integrate` redraws and integrates at the drawn value
+(99), not at 7 - the seeded output depends on what was assigned long before.  The repaired setter integrates at 7. -/
+theorem stale_record_redraws_counterexample :
+    let o : Obj := ⟨[5], some [(0, PEntry.random)]⟩
+    let solve : List Rat → Sol := fun p => [[p.sum]]
+    ((integrateObj listGen solve (setParamsLegacy listGen (.all [7]) o [99]).1 [99]).1.sol.map (fun r => r.map (·.num)) = [[99]]) ∧
+    ((integrateObj listGen solve (setParams listGen (.all [7]) o [99]).1 [99]).1.sol.map (fun r => r.map (·.num)) = [[7]]) := by
+  decide +kernel
+
+/-- non-vacuity: a session `dict with a distribution; run; numbers; run` on the demo model -/
+example :
+    let o : Obj := ⟨[1, 2], none⟩
+    let a := setParams listGen (.dict [(1, .random), (0, .fixed 3)]) o [10, 20]
+    let b := setParams listGen (.all [4, 5]) a.1 a.2
+    (a.1.cur, a.1.record.isSome, a.2, b.1.cur, b.1.record.isSome) = ([3, 10], true, [20], [4, 5], false) := by
+  decide +kernel
+
 /-! ### recorded streams: consecutive segments -/
 
 /-- total number of requests of a list of runs -/
